@@ -112,6 +112,8 @@ type Exchange struct {
 	Repo     string
 	Path     string     // request path
 	SentPath string     // the path the client asked for (differs from Path after Decision.Redirect)
+	RawQuery string     // the raw query of the request exactly as received
+	Body     []byte     // the response body (kept when shorter than 8 KiB)
 	Query    url.Values // request query as received
 	Dec      Decision
 	Status   int
@@ -251,7 +253,7 @@ func (r *Registry) RoundTrip(req *http.Request) (*http.Response, error) {
 		req.Body.Close()
 	}
 	p := req.URL.Path
-	x := &Exchange{Path: p, Query: ParseQueryLenient(req.URL.RawQuery)}
+	x := &Exchange{Path: p, Query: ParseQueryLenient(req.URL.RawQuery), RawQuery: req.URL.RawQuery}
 	// listings are also served under the sibling path <path>/~p (Decision.AltPath)
 	alt := strings.HasSuffix(p, "/~p")
 	p = strings.TrimSuffix(p, "/~p")
@@ -487,6 +489,9 @@ func (r *Registry) RoundTrip(req *http.Request) (*http.Response, error) {
 		body = append(body, []byte(`{"tags":["zzz"],"repositories":["zzz"],"manifests":[{"mediaType":"x","digest":"sha256:00","size":1}]}`)...)
 	}
 	x.TotalLen = len(body)
+	if len(body) < 8192 {
+		x.Body = body
+	}
 	x.Status = http.StatusOK
 	x.body = &countingBody{r: bytes.NewReader(body)}
 	return &http.Response{Status: "200 OK", StatusCode: 200, Proto: "HTTP/1.1", ProtoMajor: 1, ProtoMinor: 1,
